@@ -9,11 +9,13 @@
    np.allclose(a, b) is modelled literally over the reals:
        |a - b| <= atol + rtol * |b|,   atol = 1e-8, rtol = 1e-5
    (for complex entries the moduli are square roots; the comparison is decided exactly
-   on the squares by [le_sqrt_aff], proved equivalent to the real-number statement in
-   Proofs/ValidateProofs.v).  Binary64 rounding inside numpy is NOT modelled: the
+   on the squares by [le_sqrt_aff]: x <= a + r y  <=>  x <= a  or  L <= 0  or  L^2 <= 4 a^2 x^2
+   with L = x^2 + a^2 - r^2 y^2; this derivation is a comment, not a Coq theorem about sqrt --
+   Proofs/ValidateProofs.v proves the rational facts close_within_atol / far_not_close).  Binary64 rounding inside numpy is NOT modelled: the
    correspondence keeps its inputs away from the tolerance threshold.
 
-   Behaviours that are listed findings sit behind the switches of [quirks].          *)
+   Behaviours that are listed findings sit behind the switches of [quirks] (one is left: the
+   order2=[names] TypeError of diff._parse_partials, DESIGN item 6).                  *)
 From Coq Require Import List ZArith QArith Qcanon Qabs Bool String Lia.
 From EPG Require Import Scalar QI.
 Import ListNotations.
@@ -45,11 +47,7 @@ Infix ">>" := andv (at level 61, left associativity).
 Definition guard (bad : bool) (e : exn) : verdict := if bad then Reject e else Accept.
 
 Record quirks : Type := mkQuirks {
-  q_expm_zero_batch : bool;      (* exchange.expm reshapes eye(n) to a batch: zero generator with batch > 1 raises *)
-  q_diffusion_broadcast1 : bool; (* D._apply lets a size-1 wavenumber/tensor axis broadcast against the other *)
-  q_order2_list : bool;          (* diff._parse_partials builds a set of dicts for order2=[names] -> TypeError *)
-  q_zero_row : bool;             (* shift.S accepts an all-zero row of a batch of shifts (only an all-zero array is refused) *)
-  q_C_list_tau : bool            (* shift.C: common.map_arrays(tau) maps over a python list, `tau < 0` is a TypeError *)
+  q_order2_list : bool           (* diff._parse_partials builds a set of dicts for order2=[names] -> TypeError *)
 }.
 
 (* ------------------------------------------------------------------ numbers *)
@@ -113,9 +111,10 @@ Definition row_zero (data : list Q) (kd b : nat) : bool :=
 Definition any_zero_row (k : karg) : bool :=
   let kd := kdim_of k in
   existsb (row_zero (k_data k) kd) (seq 0 (List.length (k_data k) / kd)).
-Definition S_ok (q : quirks) (k : karg) (d : option (list Q)) : verdict :=
+(* an all-zero array, or (arrays only, after atleast_2d) any all-zero row of the batch *)
+Definition S_ok (k : karg) (d : option (list Q)) : verdict :=
   guard (allclose0 (k_data k)) TypeError >>
-  guard (negb (q_zero_row q) && any_zero_row k) TypeError >>
+  guard (any_zero_row k) TypeError >>
   guard (negb (kdim_ok k)) ValueError >> duration_ok d.
 
 (* G(tau, gradient): k = c * gradient * tau (c = 2 pi gamma 1e-3 > 0); the model covers the
@@ -124,16 +123,15 @@ Definition outer (c : Q) (tau g : list Q) : list Q :=
   flat_map (fun t => map (fun x => c * x * t) g) tau.
 Definition G_kshape (tau_shape g_shape : list nat) : list nat :=
   match g_shape with [] => tau_shape | _ => match tau_shape with [] => g_shape | _ => tau_shape ++ g_shape end end.
-Definition G_ok (q : quirks) (c : Q) (tau_shape : list nat) (tau : list Q) (g_shape : list nat) (g : list Q)
+Definition G_ok (c : Q) (tau_shape : list nat) (tau : list Q) (g_shape : list nat) (g : list Q)
            (d : durarg) : verdict :=
   guard (any_neg tau) ValueError >>
   guard (match g_shape with [] => false | _ => (3 <? lastd g_shape)%nat end) ValueError >>
-  S_ok q (KArr true (G_kshape tau_shape g_shape) (outer c tau g)) (eff_duration d tau).
+  S_ok (KArr true (G_kshape tau_shape g_shape) (outer c tau g)) (eff_duration d tau).
 (* C(tau): k = stack([0,0,0,tau], axis=-1) *)
-Definition C_ok (q : quirks) (tau_is_pylist : bool) (tau_shape : list nat) (tau : list Q) (d : durarg) : verdict :=
-  guard (q_C_list_tau q && tau_is_pylist) TypeError >>
+Definition C_ok (tau_shape : list nat) (tau : list Q) (d : durarg) : verdict :=
   guard (any_neg tau) ValueError >>
-  S_ok q (KArr true (tau_shape ++ [4%nat]) (flat_map (fun t => [0; 0; 0; t]) tau)) (eff_duration d tau).
+  S_ok (KArr true (tau_shape ++ [4%nat]) (flat_map (fun t => [0; 0; 0; t]) tau)) (eff_duration d tau).
 
 (* 5. float shift without a grid: S._apply / get_shift_method *)
 Inductive coords : Type := CNone | CInt | CFloat.
@@ -270,18 +268,9 @@ Definition khi_ok (khi : khiarg) : verdict :=
        guard (negb (forallb (fun j => forallb (fun b => close0 (colsum data n b j)) (seq 0 nb)) (seq 0 n)))
              ValueError)
   end.
-(* expm(): xp.isclose(norm(mat), 0) -> eye(n).reshape(mat.shape), which raises for a batch *)
-Definition khi_batch (khi : khiarg) : nat :=
-  match khi with KhiScalar _ => 1%nat | KhiArr shape _ => prodn (butlast (butlast shape)) end.
-Definition khi_entries (khi : khiarg) : list Q :=
-  match khi with KhiScalar q => [q; q; q; q] | KhiArr _ d => d end.
-Definition gen_norm2 (tau : Q) (khi : khiarg) : Q := sumQ (map (fun x => (tau * x) * (tau * x)) (khi_entries khi)).
-Definition expm_ok (q : quirks) (tau : Q) (khi : khiarg) : verdict :=
-  guard (q_expm_zero_batch q && negb (khi_batch khi =? 1)%nat
-         && Qle_bool (gen_norm2 tau khi) (atol * atol)) ValueError.
 (* X(tau, khi, duration=d) with scalar tau and T1 = T2 = g = None *)
-Definition X_ok (q : quirks) (tau : Q) (khi : khiarg) (d : durarg) : verdict :=
-  khi_ok khi >> expm_ok q tau khi >> duration_ok (eff_duration d [tau]).
+Definition X_ok (tau : Q) (khi : khiarg) (d : durarg) : verdict :=
+  khi_ok khi >> duration_ok (eff_duration d [tau]).
 
 (* X._apply on an un-batched n x n matrix: prepare, then khi . density ~ 0 row by row *)
 Definition rowdot (data : list Q) (n : nat) (dens : list Q) (i : nat) : Q :=
@@ -302,26 +291,13 @@ Definition D_shape_ok (tau_shape D_shape : list nat) (k_shape : option (list nat
          && negb (lastd D_shape =? lastd ks)%nat) ValueError >>
   guard (negb (bshapes_ok [tau_shape; butlast (butlast D_shape); butlast ks; [1%nat]])) ValueError.
 
-(* D._apply on a state whose wavenumbers have kd = min(kdim,3) components, with an un-batched
-   tensor (m x m, None = scalar D) and an optional shift k with kk components.
-   numpy broadcasting decides; with the repaired behaviour (switch off) sizes must agree. *)
-Definition bc1 (q : quirks) (a b : nat) : bool :=
-  (a =? b)%nat || (q_diffusion_broadcast1 q && ((a =? 1)%nat || (b =? 1)%nat)).
-Definition D_apply_ok (q : quirks) (m kk : option nat) (kd : nat) : verdict :=
-  let after_k :=
-    match kk with
-    | None => (Accept, kd)
-    | Some j =>
-        (guard (negb (bc1 q kd j)) ValueError >>       (* sm.k - shift *)
-         guard (3 <? Nat.max kd j)%nat ValueError >>    (* only 1d, 2d, 3d wavenumbers *)
-         guard (negb (Nat.max kd j =? kd)%nat) ValueError, (* k2.shape[-1] != k1.shape[-1] *)
-         Nat.max kd j)
-    end in
-  fst after_k >>
-  match m with
-  | None => Accept
-  | Some mm => guard (negb (bc1 q (snd after_k) mm)) ValueError
-  end.
+(* D._apply on a state whose wavenumbers sm.k have kd = min(kdim,3) components, with a tensor
+   whose last dimension is m (None = scalar D) and an optional shift k with kk components:
+   both must equal kd *)
+Definition differs (o : option nat) (kd : nat) : bool :=
+  match o with None => false | Some j => negb (j =? kd)%nat end.
+Definition D_apply_ok (m kk : option nat) (kd : nat) : verdict :=
+  guard (differs m kd) ValueError >> guard (differs kk kd) ValueError.
 
 (* ------------------------------------------------------------------ 12. differentiation arguments
    diff.DiffOperator._parse_partials *)
